@@ -12,7 +12,6 @@ TRUSTED_BASE = [
     "harness: c14_lib.py (generator, dense-matrix builders, runner, rendering of cases as Coq terms), shim.py (numpy vmap used by batched starts)",
     "independent oracle: plain numpy on dense matrices (orthonormality, first column, T = Q^H A Q, residual confined to the last column, Krylov span, early exit)",
 ]
-MAXDIFF = 0.0
 # kernel primitives of Coq's binary64 floats (not logical axioms); Print Assumptions lists them for the three
 # *_refuted witnesses, which are evaluated on PrimFloat by vm_compute
 EXTRA_AXIOMS = ["PrimFloat.float", "PrimFloat.add", "PrimFloat.sub", "PrimFloat.mul", "PrimFloat.div", "PrimFloat.opp", "PrimFloat.abs",
@@ -91,23 +90,22 @@ def eval_cases(name, terms, shard=150, timeout=900, fn="codes"):
         jobs.append((f"{name}_{s // shard}", body))
     outs = core.coqc_many(jobs, timeout)
     codes = {}
-    global MAXDIFF
-    MAXDIFF = 0.0
+    maxdiff = 0.0
     for si, (rc, out) in enumerate(outs):
         out = out.replace("%nat", "")
         m = re.search(r"=\s*\((\d+),\s*\[(.*?)\]\)\s*:", out, flags=re.S)
         if rc != 0 or not m:
-            return None, f"shard {si}: rc={rc}\n{out[-1500:]}"
+            return None, f"shard {si}: rc={rc}\n{out[-1500:]}", None
         if int(m.group(1)) != len(terms[si * shard:(si + 1) * shard]):
-            return None, f"shard {si}: evaluated {m.group(1)} cases"
+            return None, f"shard {si}: evaluated {m.group(1)} cases", None
         md = re.search(r"=\s*([-+0-9.e]+|nan|infinity)\s*:\s*float", out)
         try:
-            MAXDIFF = max(MAXDIFF, float(md.group(1).replace("infinity", "inf")))
+            maxdiff = max(maxdiff, float(md.group(1).replace("infinity", "inf")))
         except Exception:
-            MAXDIFF = float("nan")
+            maxdiff = float("nan")
         for a, b in re.findall(r"\((\d+),\s*(\d+)\)", m.group(2)):
             codes[si * shard + int(a)] = int(b)
-    return codes, None
+    return codes, None, maxdiff
 
 
 def run(ctx):
@@ -152,7 +150,7 @@ def run(ctx):
                   v=L.enc(np.array([[1., 1., 1.]])), max_iters=3, tol=1e-7, entry="lanczos")
         wo = L.run_impl(wc)
         if wo.get("ok") and wo.get("alias"):
-            wcodes, werr = eval_cases("c14_wit", [L.coq_case(wc, wo, True)], fn="codes_plain")
+            wcodes, werr, _ = eval_cases("c14_wit", [L.coq_case(wc, wo, True)], fn="codes_plain")
             alias_wit = 1
             if werr or wcodes:
                 mism.append(dict(oracle_fail=False, case=wc, got={k: wo.get(k) for k in ("k", "off", "diag", "Q")},
@@ -160,7 +158,7 @@ def run(ctx):
                                  harness_error=werr, model_code=(wcodes or {}).get(0)))
     idx = [i for i, o in enumerate(obs) if o.get("ok")]
     terms = [L.coq_case(cases[i], obs[i], "lanczos_alias_identity" in present) for i in idx]
-    codes, err = eval_cases("c14", terms)
+    codes, err, maxdiff = eval_cases("c14", terms)
     if err:
         mism.append(dict(oracle_fail=False, harness_error=err))
         codes = {}
@@ -201,7 +199,7 @@ def run(ctx):
         samples=[dict(kind=c["kind"], n=c["n"], cplx=c["cplx"], start=c["start"], batch=c["batch"], max_iters=c["max_iters"], tol=c["tol"], entry=c["entry"],
                       v=c["v"], parts=c["parts"]) for c in cases[:2]],
         mismatches=mism, findings=fnd,
-        extra=dict(compared_in_coq=len(idx) + alias_wit, alias_witness_compared=alias_wit, max_model_impl_difference=MAXDIFF, tolerance=1e-9, near_tie=hist.get(1, 0), noise_amplified_skipped=hist.get(2, 0), agree=hist.get(0, 0),
+        extra=dict(compared_in_coq=len(idx) + alias_wit, alias_witness_compared=alias_wit, max_model_impl_difference=maxdiff, tolerance=1e-9, near_tie=hist.get(1, 0), noise_amplified_skipped=hist.get(2, 0), agree=hist.get(0, 0),
                    kind_histogram=kh, start_histogram=sh, max_iters_vs_n=mh, exit_histogram=eh,
                    complex_cases=sum(1 for c in cases if c["cplx"]), batched_cases=sum(1 for c in cases if c["batch"]),
                    avoided_regions=avoided, defect_free_region_cases=len(gone_region), large_oracle_only=len(big),
